@@ -147,9 +147,12 @@ func checkC01(w *World, r *Report) {
 	rows := []row{
 		{rule: "C01.R1", fn: a.eSend, callee: EvCall("send", a.esend), name: "send", args: []string{"P0", "P1", "P2", "K:nil"}, why: why},
 		{rule: "C01.R1", fn: a.eSWS, callee: EvCall("send", a.esend), name: "send", args: []string{"P0", "P1", "P2", "P3"}, why: why},
-		{rule: "C01.R1", fn: a.cSend, callee: EvCall("SendWithSender", a.eSWS), name: "Engine.SendWithSender", args: []string{"P0.engine", "P1", "P2", "P0.pid"}, why: why},
-		{rule: "C01.R1", fn: a.cForward, callee: EvCall("SendWithSender", a.eSWS), name: "Engine.SendWithSender", args: []string{"P0.engine", "P1", "P0.message", "P0.pid"}, why: why},
+		{rule: "C01.R1", fn: a.cSend, callee: EvCall("SendWithSender", a.eSWS), name: "Engine.SendWithSender", args: []string{"P0.engine", "P1", "P2", "P0.pid"}, why: why,
+			alts: []rowAlt{{EvCall("send", a.esend), "send", []string{"P0.engine", "P1", "P2", "P0.pid"}}}},
+		{rule: "C01.R1", fn: a.cForward, callee: EvCall("SendWithSender", a.eSWS), name: "Engine.SendWithSender", args: []string{"P0.engine", "P1", "P0.message", "P0.pid"}, why: why,
+			alts: []rowAlt{{EvCall("send", a.esend), "send", []string{"P0.engine", "P1", "P0.message", "P0.pid"}}}},
 		{rule: "C01.R1", fn: a.cRespond, callee: EvCall("Send", a.eSend), name: "Engine.Send", args: []string{"P0.engine", "P0.sender", "P1"}, why: why,
+			alts: []rowAlt{{EvCall("send", a.esend), "send", []string{"P0.engine", "P0.sender", "P1", "K:nil"}}},
 			excuse: func(g *FG) []Edge { n, _ := w.nilEdges(g, "P0.sender"); return n },
 			only:   func(g *FG) []Edge { _, nn := w.nilEdges(g, "P0.sender"); return nn }},
 		{rule: "C01.R1", fn: a.esend, callee: EvCall("SendLocal", a.eSendLocal), name: "Engine.SendLocal", args: []string{"P0", "P1", "P2", "P3"}, why: why,
@@ -664,7 +667,12 @@ func checkForwardLoop(w *World, r *Report, es *ssa.Function, a *sendAnchors, rul
 			next = nx
 		}
 	}
-	if next == nil || !strings.HasPrefix(arg, "next(range(") || !strings.Contains(arg, ".subs") || callKind(ci) != "call" {
+	// the element: the range value, or the map indexed with the range key (for k := range m { ... m[k] ... })
+	elem := strings.HasPrefix(arg, "next(range(") && strings.Contains(arg, ".subs")
+	if i := strings.Index(arg, "[next(range("); i > 0 && strings.HasSuffix(arg, "))#1]") && strings.HasSuffix(arg[:i], ".subs") && arg[i+len("[next(range("):len(arg)-len("))#1]")] == arg[:i] {
+		elem = true
+	}
+	if next == nil || !elem || callKind(ci) != "call" {
 		r.Fail(rule, key, what, w.pos(ci.Pos()), "Forward is not called with the element of a range over the subscriber set ("+arg+")")
 		return
 	}
@@ -1069,6 +1077,7 @@ func checkC11(w *World, r *Report) {
 	}
 	// R2
 	w.checkRow(r, row{rule: "C11.R2", fn: a.cRespond, callee: EvCall("Send", a.eSend), name: "Engine.Send", args: []string{"P0.engine", "P0.sender", "P1"},
+		alts:   []rowAlt{{EvCall("send", a.esend), "send", []string{"P0.engine", "P0.sender", "P1", "K:nil"}}},
 		why:    "The reply does not go to the requester.",
 		excuse: func(g *FG) []Edge { n, _ := w.nilEdges(g, "P0.sender"); return n }})
 	checkSenderFresh(w, r, "C11.R2")
